@@ -241,6 +241,17 @@ def check(ctx: Ctx) -> None:
         outs = [o for _, o in explore(run)]
         ctx.count()
         ctx.ob("C19.enum", f"ConditionFulfilledValue.{name}", outs == [value] and value == value.upper(), f"str(ConditionFulfilledValue.{name}) = {outs}, value {value!r}", file=cfv.file)
+    # ---- no hidden state in (de)serialisation: a loaded object depends on the JSON text alone
+    from ..purity import check_path
+
+    schema_classes = [a for a, _b in PAIRS] + [f"{TREE_MOD}.TreeSchema", f"{TREE_MOD}.TokenSchema", f"{TREE_MOD}._TokenOrTreeSchema", f"{ENUMS}.RequirementIndicatorSchema"]
+    roots = [f.qualname for f in model.functions.values() if f.module.name == TREE_MOD and f.cls is None]
+    first_hook = post_load_hook(model, model.cls(PAIRS[0][0]), "post_load")
+    if first_hook is not None:
+        roots.append(first_hook.qualname)
+    if roots:
+        ctx.soft(lambda: check_path(ctx, "C19.state", roots, "loading a serialised object must not depend on what was (de)serialised before",
+                                    extra_classes=[c for c in schema_classes if c in model.classes]))
     # ---- tree schemas
     ts, tok, tot = model.cls(f"{TREE_MOD}.TreeSchema"), model.cls(f"{TREE_MOD}.TokenSchema"), model.cls(f"{TREE_MOD}._TokenOrTreeSchema")
     tsf, tokf = schema_fields(model, ts), schema_fields(model, tok)
